@@ -56,6 +56,31 @@ def _is(ev, body):
     return ev.kind == "call" and (ev.fn.get("resolved") or ev.fn).get("def") == body.key
 
 
+def _flatten_range(dst):
+    """&x[a..][..n] and &x[a..][b..c] are the sub-ranges x[a..a+n], x[a+b..a+c] of x itself"""
+    if not (isinstance(dst, tuple) and dst and dst[0] == "ref" and dst[1][0] == "range"):
+        return dst
+    outer = dst[1]
+    inner = outer[1]
+    if not (isinstance(inner, tuple) and inner and inner[0] == "range" and inner[2][0] == "agg" and outer[2][0] == "agg"):
+        return dst
+    ik, ok_ = str(inner[2][1][1]).rsplit("::", 1)[-1], str(outer[2][1][1]).rsplit("::", 1)[-1]
+    if ik == "RangeFrom":
+        a = inner[2][2][0]
+    elif ik == "Range":
+        a = inner[2][2][0]
+    else:
+        return dst
+    if ok_ == "RangeTo":
+        lo, hi = a, ("bin", "Add", a, outer[2][2][0])
+    elif ok_ == "Range":
+        lo, hi = ("bin", "Add", a, outer[2][2][0]), ("bin", "Add", a, outer[2][2][1])
+    else:
+        return dst
+    rng = ("agg", inner[2][1][:1] + ("std::ops::Range",) + inner[2][1][2:], (lo, hi))
+    return _flatten_range(("ref", ("range", inner[1], rng)))
+
+
 def check(col, prog, tier, profile, fixture=None):
     crate = prog.crate(fixture or "rlib_io")
     sfx = "" if profile == "dev" else "@" + profile
@@ -110,7 +135,7 @@ def check(col, prog, tier, profile, fixture=None):
             why = "%d copies into the buffer on one path" % len(cp)
         else:
             c = evs[cp[0]]
-            dst = c.args[0]
+            dst = _flatten_range(c.args[0])
             okd = dst[0] == "ref" and dst[1][0] == "range" and dst[1][1] == ("field", selfp, BUF) and dst[1][2][0] == "agg" and str(dst[1][2][1][1]).endswith("ops::Range")
             if not okd or c.args[1] not in (("param", 2, I.names.get(2)), ("ref", bufp)):
                 why = "the copy is not buf[a..b].copy_from_slice(bytes): %s <- %s" % (tstr(dst), tstr(c.args[1]))
@@ -200,6 +225,14 @@ def check(col, prog, tier, profile, fixture=None):
                                             k = [y for y in s_[2] if isinstance(y, tuple) and y and y[0] in ("int", "assoc")]
                                             if k:
                                                 bound = k[-1][1] if k[-1][0] == "int" else _assoc_value(crate, k[-1])
+                if bound is None and ev.state:
+                    # the call is guarded by a test of the slice's own length (`if bytes.len() <= BUF_SIZE { .. }`)
+                    facts_ = ev.state[0]
+                    for f_ in facts_:
+                        for s_ in ([f_[1]] + list(subterms(f_[1]))) if isinstance(f_[1], tuple) else []:
+                            if s_[0] == "len" and any(x == (a[1] if a[0] == "ref" else ("deref", a)) for x in subterms(s_)) and zones.entails(facts_, "Le", s_, mk_int(cap), Ib.tys):
+                                bound = cap
+                                desc = "%s (length tested against the capacity on this path)" % tstr(a)
                 key = "%s|write_bytes-arg" % fk(b)
                 if bound is not None and bound <= cap:
                     col.ok("V1" + sfx, b.loc(ev.bb), key, "slice length <= %d <= capacity %d" % (bound, cap))
@@ -276,7 +309,7 @@ def check(col, prog, tier, profile, fixture=None):
             fidx = [k for k, e in enumerate(evs) if _is(e, fl)]
             # the payload: a call of write / write_bytes, or (a verified one-byte appender, V1) a store into the buffer;
             # a flush that makes room BEFORE the payload (reserve) is not the per-write flush
-            payload = [k for k, e in enumerate(evs) if (e.kind == "call" and not _is(e, fl) and (e.extra.get("name") in ("write", "write_bytes"))) or (e.kind == "store" and e.place[0] == "index" and isinstance(e.place[1], tuple) and e.place[1][0] == "field" and e.place[1][2] == BUF)]
+            payload = [k for k, e in enumerate(evs) if (e.kind == "call" and not _is(e, fl) and (e.extra.get("name") in ("write", "write_bytes") or _is(e, wb))) or (e.kind == "store" and e.place[0] == "index" and isinstance(e.place[1], tuple) and e.place[1][0] == "field" and e.place[1][2] == BUF)]
             key = "%s|flush-per-write" % fk(b)
             after = [k for k in fidx if payload and k > max(payload)]
             if profile == "dev":
